@@ -30,3 +30,7 @@ Definition tokenize_enc (s : str) : list N :=
   | PCrash c => [2%N; site_id c]
   | PFuel => [3%N]
   end.
+
+From Delb.XPath Require Import Classify.
+(* outcome and classes in one list: [n classes] ++ classes ++ outcome *)
+Definition parse_case (s : str) : list N := enc_list (fun c => [c]) (classes_of s) ++ parse_enc s.
